@@ -562,6 +562,9 @@ func (a *Act) callMods(li *loopInfo, m *modSet, c ssa.CallInstruction, depth int
 		a.contractMods(li, m, callee, fc, com, depth)
 		return
 	}
+	if !a.canInline(callee, stack) && externalValueOnly(callee) {
+		return
+	}
 	if a.canInline(callee, stack) && depth < 6 {
 		subst := map[ssa.Value]ssa.Value{}
 		for i, p := range callee.Params {
